@@ -17,7 +17,7 @@ SPECIAL_BYTES = b"\n\r\t +-.0123456789=\x01\x00\x0b\x0c\x85\xa0"
 MALFORMED = ["bodylen_alpha", "bodylen_neg", "bodylen_huge", "cks_alpha", "tag_alpha", "no_equals",
              "empty_field", "wrong_order", "truncated", "wrong_begin", "blob",
              "odd_dup_tag", "odd_tag_after_group", "odd_group_structure", "odd_random_tags", "hdr_value_alpha",
-             "odd_huge_number"]
+             "odd_huge_number", "bodylen_giant"]
 # tags of the FIX 4.4 repeating-group table (count tags and members, nested ones included) + plain ones
 ODD_POOL = ["453", "448", "447", "452", "802", "523", "803", "454", "455", "456", "555", "600", "539", "524", "525",
             "538", "804", "545", "805", "136", "137", "138", "139", "78", "79", "80", "11", "55", "54", "38", "44",
@@ -346,6 +346,26 @@ class StreamSim(PeerSim):
                         f"{len(got)} of {len(want)} application frames were handed over (missing {[w for w in want if w not in got][:4]})")
                     self._stop("violation")
                     return
+        if (self.cfg["corrupt"] and self.burst_done and self.follow_sent and self.n_corrupt and self.violation is None
+                and self.peer.connected and self.at_rest() and not self.session_dropped
+                and self.eut.connection_state > ConnectionState.DISCONNECTED_BROKEN_CONN):
+            # everything has been received, the line is idle: the intact follow-up frames behind the damage have
+            # been returned by the decoder NOW (not when the next bytes happen to arrive)
+            conn = self.peer_conn()
+            rx = conn.tr[1 - self.peer_side()] if conn is not None else None
+            rd = getattr(getattr(rx, "protocol", None), "_stream_reader", None) if rx is not None else None
+            if rd is not None and not len(rd._buffer):
+                handed = {raw for (ev, kind, consumed, buflen, raw) in self.decodes if kind == "msg" and ev > self.last_fault_ev}
+                held = [sp["seq"] for sp in self.follow if sp["frame"] not in handed]
+                self.stat("idle_handover_checked")
+                if held:
+                    kinds = "+".join(sorted({k for k, _, _ in self.faults_applied})) or "none"
+                    self.violation = Violation(
+                        "held-back", f"C10/follow-up-frames-held-back-while-idle/faults={kinds}",
+                        f"after {kinds}: the line is idle and everything was received, but intact follow-up frames {held[:5]} "
+                        "have not been returned by the decoder (they would only come out when more bytes arrive)")
+                    self._stop("violation")
+                    return
         if self.cfg["corrupt"] and self.burst_done and not self.follow_sent and self.peer.connected:
             self.fire_family(["follow"])
         if self.burst_done and not self.final_sent and self.peer.connected:
@@ -434,6 +454,9 @@ class StreamSim(PeerSim):
             fr = refframer.build("D", body, body_len="ab", **base)
         elif kind == "bodylen_neg":
             fr = refframer.build("D", body, body_len="-5", **base)
+        elif kind == "bodylen_giant":
+            # more digits than int() converts
+            fr = refframer.build("D", body, body_len="1" * r.choice([4300, 4301, 6000]), **base)
         elif kind == "bodylen_huge":
             fr = refframer.build("D", body, body_len="99999999999", **base)
         elif kind == "cks_alpha":
